@@ -18,6 +18,7 @@ SHARED = {
     "W3jNorm": ["C05"],
     "GDFamily": ["C01", "C02", "C07"],
     "DocD": ["C01", "C02", "C07"],
+    "DAll": ["C01", "C02", "C07", "C03"],
     "FlatSteps": ["C01", "C08", "C15"],
 }
 
